@@ -1276,6 +1276,16 @@ class Model:
         env: Environment
             The environment where values and functions are taken from.
         """
+        # Operators like ':', '/', '**' or '(a + b) * c' build terms that hold the very same
+        # component objects. A component stores its own encoding, which may differ between terms,
+        # so every term gets its own copy.
+        seen = set()
+        for term in self.common_terms + [term.expr for term in self.group_terms]:
+            for i, component in enumerate(getattr(term, "components", [])):
+                if id(component) in seen:
+                    term.components[i] = deepcopy(component)
+                seen.add(id(term.components[i]))
+
         # Set types on all terms
         self.set_types(data, env)
 
